@@ -25,6 +25,72 @@ type Scn struct {
 
 var registry []Scn
 
+// Fam is a family of scenarios indexed 0..Count-1 (one Stats entry for the whole family; members
+// are distributed over the shards, each member is explored completely by its shard).
+type Fam struct {
+	Prop  string
+	Name  string
+	Tiers string
+	Count func(tier string) int
+	Make  func(tier string, i int) *zzvrt.Scenario
+}
+
+var families []Fam
+
+func registerFamily(f Fam) { families = append(families, f) }
+
+func runFamily(f Fam, tier string, si, sn int, dl time.Time, onlyIdx int) zzvrt.Stats {
+	agg := zzvrt.Stats{Scenario: f.Name, Outcomes: map[string]int64{}}
+	obs := map[uint64]struct{}{}
+	n := f.Count(tier)
+	for i := 0; i < n; i++ {
+		if i%sn != si || (onlyIdx >= 0 && i != onlyIdx) {
+			continue
+		}
+		if !dl.IsZero() && time.Now().After(dl) {
+			agg.Capped = true
+			break
+		}
+		sc := f.Make(tier, i)
+		if sc == nil {
+			continue
+		}
+		sc.Name = fmt.Sprintf("%s#%d", f.Name, i)
+		e := &zzvrt.Explorer{S: sc, Shard: 0, NShards: 1, Deadline: dl, MaxFound: 3}
+		e.Explore()
+		st := e.Stats
+		agg.Bounds = st.Bounds
+		agg.Executions += st.Executions
+		agg.Steps += st.Steps
+		agg.TreeNodes += st.TreeNodes
+		agg.Members++
+		if st.MaxPoints > agg.MaxPoints {
+			agg.MaxPoints = st.MaxPoints
+		}
+		for k, v := range st.Outcomes {
+			agg.Outcomes[k] += v
+		}
+		for _, h := range st.ObsHashes {
+			obs[h] = struct{}{}
+		}
+		agg.Capped = agg.Capped || st.Capped
+		agg.ReplayChecked += st.ReplayChecked
+		if len(agg.Found) < 20 {
+			agg.Found = append(agg.Found, st.Found...)
+		}
+		if agg.Sample == nil && st.SampleTrace != nil {
+			agg.Sample, agg.SampleTrace = st.Sample, append([]string{sc.Name + " " + sc.Desc}, st.SampleTrace...)
+		}
+	}
+	agg.DistinctObs = len(obs)
+	if len(obs) <= 4096 {
+		for h := range obs {
+			agg.ObsHashes = append(agg.ObsHashes, h)
+		}
+	}
+	return agg
+}
+
 func register(prop, name, tiers string, mk func(tier string) *zzvrt.Scenario) {
 	registry = append(registry, Scn{prop, name, tiers, mk})
 }
@@ -79,6 +145,15 @@ func main() {
 			e.Explore()
 			res.Scenarios = append(res.Scenarios, e.Stats)
 		}
+		for _, f := range families {
+			if f.Prop != *prop || (*tier == "quick" && !strings.Contains(f.Tiers, "q")) {
+				continue
+			}
+			if *only != "" && !strings.Contains(f.Name, *only) {
+				continue
+			}
+			res.Scenarios = append(res.Scenarios, runFamily(f, *tier, si, sn, dl, -1))
+		}
 		res.WallS = time.Since(t0).Seconds()
 		b, _ := json.Marshal(res)
 		if *out == "" {
@@ -112,6 +187,31 @@ func main() {
 			sc := s.Make(*tier)
 			sc.Name = s.Name
 			x, obs, v := zzvrt.Replay(sc, ch)
+			for _, l := range x.Trace {
+				fmt.Println(l)
+			}
+			fmt.Printf("outcome=%q\nobservation=%s\n", x.Outcome, obs)
+			if x.Stack != "" {
+				fmt.Println(x.Stack)
+			}
+			for _, vi := range v {
+				fmt.Printf("VIOLATED clause=%s key=%s: %s\n", vi.Clause, vi.Key, vi.Detail)
+			}
+			if len(v) > 0 {
+				os.Exit(1)
+			}
+			return
+		}
+		for _, f := range families {
+			base, idx, ok := strings.Cut(*name, "#")
+			if !ok || f.Name != base {
+				continue
+			}
+			i, _ := strconv.Atoi(idx)
+			sc := f.Make(*tier, i)
+			sc.Name = *name
+			x, obs, v := zzvrt.Replay(sc, ch)
+			fmt.Println(sc.Desc)
 			for _, l := range x.Trace {
 				fmt.Println(l)
 			}
